@@ -1313,4 +1313,11 @@ theorem truthy_eq (a : GoVal) : truthy a =
   generalize strip a = x at *
   cases x <;> simp [stripped] at h <;> simp [wrapOf, valueOf, GoVal.isNil, isFalseV]
 
+
+/-! ## I. decidability, for the concrete examples next to the theorems -/
+
+deriving instance DecidableEq for Res
+
+instance (a : GoVal) : Decidable (WF a) := inferInstanceAs (Decidable (wfE (strip a) = true))
+
 end Cmp
